@@ -4,7 +4,8 @@
    types).  Trusted readings, besides the translator itself:
    * `v.sort_unstable_by_key(|a| key)` is insertion sort by the key (`str_leb` for a printed name,
      `pos_leb` for `Option<usize>`: None first).  An unstable sort and a stable one return the same
-     list when the keys are pairwise distinct, which C09_strictly_sorted_* / the Uniq invariant give
+     list when the keys are pairwise distinct (proved: C09_source_sort_by_name_any /
+     C09_source_sort_by_position_any in Properties/C09rs.v), which C09_strictly_sorted_* / the Uniq invariant give
      for attribute names, child names and positions of parsed trees; for equal keys std's unstable
      sort is deterministic but unspecified, and this reading is an assumption.
    * `String::push_str` / `format!` with `{}` holes = concatenation; `Vec::push` = append at the end;
